@@ -15,6 +15,7 @@ CLI = "pyrtma.client"
 BACKENDS = {"pyrtma.compilers.python": "PyDefCompiler", "pyrtma.compilers.c99": "CDefCompiler",
             "pyrtma.compilers.javascript": "JSDefCompiler", "pyrtma.compilers.matlab": "MatlabDefCompiler"}
 PURE_CALLS = {"dedent", "textwrap.dedent", "join", "encode", "items", "format", "str", "sha256", "hexdigest", "repr", "isinstance", "list", "tuple"}
+PURE_MODULES = {"textwrap", "hashlib"}  # module names used as receivers of pure functions (dedent, sha256) even when imported elsewhere
 BUILTIN_TYPES = {"str", "int", "float", "bool", "dict", "list", "tuple", "bytes"}
 IMPURE_ROOTS = ("time", "datetime", "random", "uuid", "os", "id", "hash", "getpid", "cwd", "absolute", "resolve", "sorted", "set", "frozenset", "reversed", "keys", "values")
 
@@ -38,7 +39,7 @@ def hash_roots(f, expr, depth=0, seen=None) -> Set[str]:
             return out
         defs = dataflow.definitions(f, expr.id)
         if not defs:
-            return set() if expr.id in BUILTIN_TYPES else {"free:" + expr.id}
+            return set() if expr.id in BUILTIN_TYPES or expr.id in PURE_MODULES else {"free:" + expr.id}
         for kind, rhs in defs:
             if kind == "param":
                 out.add("param:" + expr.id)
@@ -46,6 +47,11 @@ def hash_roots(f, expr, depth=0, seen=None) -> Set[str]:
                 out |= {"iter:" + norm(rhs)} | hash_roots(f, rhs, depth + 1, seen | {expr.id})
             else:
                 out |= hash_roots(f, rhs, depth + 1, seen | {expr.id})
+        # a list filled piece by piece (`parts = []; ... parts.append(x)`): what is appended reaches it too
+        for n in walk_local(f):
+            if isinstance(n, ast.Call) and isinstance(n.func, ast.Attribute) and n.func.attr in ("append", "extend", "insert") and isinstance(n.func.value, ast.Name) \
+                    and n.func.value.id == expr.id and n.args:
+                out |= hash_roots(f, n.args[-1], depth + 1, seen | {expr.id})
         return out
     if isinstance(expr, ast.Subscript):
         p = path_of(expr.value)
@@ -206,6 +212,14 @@ def run(prog: Program, chk: Check):
                 tg = [x.id for x in g0.target.elts] if isinstance(g0.target, ast.Tuple) else []
                 used = {x.id for x in ast.walk(comps[0].elt) if isinstance(x, ast.Name)}
                 okc = len(tg) == 2 and set(tg) <= used and not g0.ifs
+            if not comps:
+                # the same walk written as a loop that appends one line per pair
+                lps = [n for n in walk_local(f.node) if isinstance(n, ast.For) and (norm(n.iter) == f"{dparam}['fields'].items()" or pair_source(n.iter))]
+                if len(lps) == 1 and isinstance(lps[0].target, ast.Tuple) and len(lps[0].target.elts) == 2 and len(lps[0].body) == 1 and not lps[0].orelse:
+                    b0 = lps[0].body[0]
+                    tg = [x.id for x in lps[0].target.elts if isinstance(x, ast.Name)]
+                    okc = isinstance(b0, ast.Expr) and isinstance(b0.value, ast.Call) and isinstance(b0.value.func, ast.Attribute) and b0.value.func.attr == "append" and len(b0.value.args) == 1 \
+                        and len(tg) == 2 and set(tg) <= {x.id for x in ast.walk(b0.value.args[0]) if isinstance(x, ast.Name)}
             H.decide(okc, fkey(f, "ordered-pairs"), where(f), "field list hashed as in-order `name: type` pairs of fields.items()", f"{fname}: field pairs are not hashed in definition order with both name and type")
         if self_hashing is not None:
             dci, pi, hst = self_hashing
